@@ -389,6 +389,23 @@ def _analyse_variants(facts, fn_def, max_split=5, **kw):
                 if a.get("k") == "If" and a is not hk.accept_if and a is not n and not any(c2 is a for _, c2 in scored):
                     if tast.contains(a["then"], lambda z: z is n) or (a.get("else") is not None and tast.contains(a["else"], lambda z: z is n)):
                         scored.append((90, a))
+    # a let-bound boolean tested by several `if`s of one iteration (`let last = ..; if last {h = ..} .. x = if last {..} else {..}`):
+    # joining after the first test would lose the correlation with the later ones, so the first test is split
+    if hk.main_loop is not None:
+        flag_ifs = {}
+        for i_ in tast.find(hk.main_loop, lambda z: z.get("k") == "If"):
+            c = i_["cond"]
+            while c.get("k") == "Unary" and c.get("op") == "Not":
+                c = c["e"]
+            if c.get("k") == "Path" and c.get("res") == "local" and c.get("ty") == "bool":
+                flag_ifs.setdefault(c["id"], []).append(i_)
+        let_ids = {l["pat"]["id"] for l in tast.find(hk.main_loop, lambda z: z.get("k") == "Let" and z["pat"].get("k") == "PBind" and z["pat"].get("ty") == "bool" and z.get("init") is not None)}
+        assigned = {a["l"]["id"] for a in tast.find(hk.main_loop, lambda z: z.get("k") == "Assign" and z["l"].get("k") == "Path")}
+        for fid, ifs_ in flag_ifs.items():
+            if fid in let_ids and fid not in assigned and len(ifs_) >= 2:
+                first = ifs_[0]
+                if first is not hk.accept_if and not any(c2 is first for _, c2 in scored) and tast.contains(first, lambda z: z.get("k") in ("Assign", "AssignOp")):
+                    scored.append((80, first))
     scored.sort(key=lambda t: -t[0])
     cands = [n for _, n in scored[:max_split]]
     if not cands:
